@@ -570,8 +570,9 @@ impl<'de, R: Read<'de>> Parser<R> {
                     let symbol = self.parse_symbol()?;
                     let mut num_parser = Parser::from_slice_custom(symbol.as_bytes(), self.options);
                     match num_parser.parse_num_literal(10, true) {
-                        Ok(token) => Token::Number(token),
-                        Err(_) => self.name_token(symbol),
+                        // Only a number if nothing is left over, `1+` is a symbol
+                        Ok(token) if matches!(num_parser.peek(), Ok(None)) => Token::Number(token),
+                        _ => self.name_token(symbol),
                     }
                 } else {
                     Token::Number(self.parse_num_literal(10, true)?)
